@@ -8,6 +8,7 @@ import Ivg.Gen.Tie.Code.EncColors
 import Ivg.Gen.Tie.Code.DecColors
 import Ivg.Gen.Tie.Code.Resolve
 import Ivg.Gen.Tie.Code.Decoder8
+import Ivg.Gen.Tie.Code.Encoder6
 import Ivg.Obligations
 /-!
 # C09 — colours are stored exactly; colour forms and blending follow the tables
@@ -365,4 +366,7 @@ end Ivg.Props.C09
   Ivg.Gen.Tie.renderer_SetCReg_code_tie',
   -- regenerated code (translator) = model, for all inputs: the decoder from bytes to Destination calls (Tie/Code/Decoder*.lean)
   Ivg.Gen.Tie.decodeSetCReg_code_tie,
-  Ivg.Gen.Tie.decode_Decode_code_tie]
+  Ivg.Gen.Tie.decode_Decode_code_tie,
+  -- regenerated code (translator): Encoder.Reset (it writes the suggested palette) = model, every field
+  Ivg.Gen.Tie.reset_code_tie,
+  Ivg.Gen.Tie.reset_code_tie_state]
